@@ -27,6 +27,89 @@ func (r *Run) callersOf(f *types.Func) []*Func {
 	return out
 }
 
+// attributed: the API-level functions on whose behalf fn runs: fn itself when it is exported, is a
+// literal's root without callers, or has no callers; otherwise the union over its callers, looking
+// through unexported helpers of the same package. Lets who-may-call / who-may-write rules survive
+// the extraction of a helper.
+func (r *Run) attributed(fn *Func) map[string]bool {
+	if r.attrMemo == nil {
+		r.attrMemo = map[*Func]map[string]bool{}
+	}
+	fn = fn.root().origOrSelf()
+	if m, ok := r.attrMemo[fn]; ok {
+		return m
+	}
+	out := map[string]bool{}
+	r.attrMemo[fn] = out // cycle guard
+	if fn.Obj == nil || fn.Obj.Exported() {
+		out[fn.Name] = true
+		return out
+	}
+	callers := r.callersOf(fn.Obj)
+	// method values (once.Do(s.init)) count as calls
+	for _, c := range r.P.All {
+		if c == fn {
+			continue
+		}
+		found := false
+		ast.Inspect(c.Body, func(n ast.Node) bool {
+			if se, ok := n.(*ast.SelectorExpr); ok {
+				if funcValueTarget(c.Info(), se) == fn.Obj {
+					found = true
+				}
+			}
+			return !found
+		})
+		if found {
+			dup := false
+			for _, x := range callers {
+				if x == c {
+					dup = true
+				}
+			}
+			if !dup {
+				callers = append(callers, c)
+			}
+		}
+	}
+	n := 0
+	for _, c := range callers {
+		if c.Pkg != fn.Pkg || c == fn {
+			continue
+		}
+		n++
+		for k := range r.attributed(c) {
+			out[k] = true
+		}
+	}
+	if n == 0 {
+		out[fn.Name] = true
+	}
+	return out
+}
+
+// onlyFrom: fn acts only on behalf of the named functions.
+func (r *Run) onlyFrom(fn *Func, allowed ...string) bool {
+	self := fn.root().origOrSelf().Name
+	for _, a := range allowed {
+		if a == self {
+			return true
+		}
+	}
+	for k := range r.attributed(fn) {
+		ok := false
+		for _, a := range allowed {
+			if a == k {
+				ok = true
+			}
+		}
+		if !ok {
+			return false
+		}
+	}
+	return true
+}
+
 // ruleFunnelOnce (E5, G5): every way a connection ends goes through the one disconnect path, once.
 func ruleFunnelOnce(r *Run) {
 	m := r.M()
@@ -54,11 +137,11 @@ func ruleFunnelOnce(r *Run) {
 				}
 			}
 		}
-		r.Check("E5", "HandleDisconnect-caller["+c.Name+"]", c.Obj == hdisc || isDecorator, c.Body.Pos(), "the handler's HandleDisconnect is invoked only by the connection's disconnect funnel (and forwarded by decorators)")
+		r.Check("E5", "HandleDisconnect-caller["+c.Name+"]", c.Obj == hdisc || isDecorator || r.onlyFrom(c, "websocket.(*handler).handleDisconnect"), c.Body.Pos(), "the handler's HandleDisconnect is invoked only by the connection's disconnect funnel (and forwarded by decorators)")
 	}
 	// (b) the funnel is entered only from the main loop's disconnect arm
 	for _, c := range r.callersOf(hdisc) {
-		r.Check("E5", "funnel-caller["+c.Name+"]", c == handle, c.Body.Pos(), "handleDisconnect is called only from the connection's main loop")
+		r.Check("E5", "funnel-caller["+c.Name+"]", c == handle || r.onlyFrom(c, handle.Name), c.Body.Pos(), "handleDisconnect is called only from the connection's main loop")
 	}
 	paths := r.Paths(handle)
 	r.Analysed(handle, len(paths))
@@ -446,6 +529,17 @@ func (r *Run) chanSites() []chanSite {
 	inlined := map[*ast.FuncLit]bool{}
 	seen := map[string]bool{}
 	do := func(fn *Func) {
+		if !hasChanOps(fn) {
+			for _, path := range r.E.Paths(fn) {
+				for _, ev := range path.Events {
+					if ev.Kind == EvEnter && ev.Lit != nil {
+						inlined[ev.Lit] = true
+					}
+				}
+				break
+			}
+			return
+		}
 		for pi, path := range r.Paths(fn) {
 			r.at(&path)
 			for _, ev := range path.Events {
@@ -810,5 +904,31 @@ func hasDeferredRecover(f *Func) bool {
 			return true
 		})
 	}
+	return found
+}
+
+// hasChanOps: the function (or a literal / looked-into helper of its package is not considered
+// here: helpers are analysed on their own) contains a channel send, receive, close or select.
+func hasChanOps(fn *Func) bool {
+	if fn.Body == nil {
+		return false
+	}
+	found := false
+	info := fn.Info()
+	ast.Inspect(fn.Body, func(n ast.Node) bool {
+		switch v := n.(type) {
+		case *ast.SendStmt, *ast.SelectStmt:
+			found = true
+		case *ast.UnaryExpr:
+			if v.Op == token.ARROW {
+				found = true
+			}
+		case *ast.CallExpr:
+			if b, ok := calleeObj(info, v).(*types.Builtin); ok && b.Name() == "close" {
+				found = true
+			}
+		}
+		return !found
+	})
 	return found
 }
